@@ -529,6 +529,7 @@ def check_inspectors(col, case, sub='inspectors', names=None, route=True):
     queries = case.get('queries')
     qset = set(queries) if queries is not None else None
     names = names or imggen.FORMATS
+    imgdrive.tracing_for((core.h64(data), repr(sched)))
     kind = case['content'].get('kind', '?')
     bounds = list(img.boundaries) if img is not None else [4, 64, 512]
     n = len(data)
